@@ -6,7 +6,62 @@ from nvlib.check import Prop
 from props import c06_extract as T
 
 NSLOT, NOBJ, NVAR, NCALL, NSENT = 10, 4, 4, 4, 4
-NEFUN = 20
+NEFUN = 45
+
+
+def save_text(v):
+    """the driver's save format of a small value (ints, strings without blanks, lists, dicts)"""
+    if isinstance(v, int):
+        return str(v)
+    if isinstance(v, str):
+        return '"%s"' % v
+    if isinstance(v, list):                      # arrays are lists, mappings are tuples of (key, value) pairs
+        return "({" + "".join(save_text(x) + "," for x in v) + "})"
+    return "([" + "".join(save_text(k) + ":" + save_text(x) + "," for k, x in v) + "])"
+
+
+SAVE_BASES = [
+    [1, "ab", (("k", [2]), ("j", 3))],
+    (("k", [1, "x"]), ([2], "v"), (7, (("z", 1),))),
+    [[[1], "s"], "t"],
+    (("a", "b"), ((("m", 1),), [3])),
+]
+DAMAGE_CHARS = 'x,:()[]{}"9-/'
+
+
+def damage(text, rng):
+    k = rng.below(5)
+    if not text:
+        return "x"
+    i = rng.below(len(text))
+    if k == 0:
+        return text[:i] or "("
+    if k == 1:
+        return text[:i] + rng.choice(DAMAGE_CHARS) + text[i + 1:]
+    if k == 2:
+        return text[:i] + text[i + 1:] or "("
+    if k == 3:
+        return text[:i] + text[i] + text[i:]
+    return text[:i] + rng.choice(DAMAGE_CHARS) + text[i:]
+
+
+def random_value(rng, depth=0):
+    k = rng.weighted([("int", 3), ("str", 3), ("arr", 2 if depth < 3 else 0), ("map", 2 if depth < 3 else 0)])
+    if k == "int":
+        return rng.range(-3, 40)
+    if k == "str":
+        return rng.choice(["a", "bc", "k1", "xyz"])
+    if k == "arr":
+        return [random_value(rng, depth + 1) for _ in range(rng.range(0, 3))]
+    out, seen = [], set()
+    for _ in range(rng.range(0, 3)):
+        key = random_value(rng, depth + 2) if rng.chance(1, 3) else rng.choice(["k", "j", 5, 6, "m"])
+        if isinstance(key, (int, str)):
+            if key in seen:
+                continue
+            seen.add(key)
+        out.append((key, random_value(rng, depth + 1)))
+    return tuple(out)
 
 
 class PCell:
@@ -64,7 +119,7 @@ class Gen:
             choices += [("newstr", 6), ("push", 6), ("pushr", 3), ("pop", 6), ("popto", 3), ("oref", 1),
                         ("clones", 1), ("unclone", 1)]
         else:
-            choices += [("err", 4), ("efun", 10), ("srange", 4)]
+            choices += [("err", 4), ("efun", 12), ("srange", 4), ("rest", 8), ("resto", 2)]
         k = r.weighted(choices)
         S = self.slots
         if k == "newarr":
@@ -332,6 +387,13 @@ class Gen:
             if n <= self.anon and not any(o is not None and o.size == 1 for o in self.obj):
                 self.anon -= n
             self.emit("unclone %d" % n)
+        elif k in ("rest", "resto"):
+            # value builder on a save text: valid, or damaged at one or two places (the partial value must be released)
+            text = save_text(random_value(r))
+            for _ in range(r.weighted([(0, 1), (1, 4), (2, 2)])):
+                text = damage(text, r)
+            if " " not in text and 0 < len(text) < 200 and not text.startswith("#"):
+                self.emit("%s %s" % (k, text))
         elif k == "err":
             self.emit("err %d %d" % (self.pick_slot(), self.pick_slot()))
         elif k == "efun":
@@ -416,7 +478,11 @@ class C06(Prop):
             "seen by every variable compared (strings are values), stack pushes and pops, call_outs whose callbacks keep their argument, add_action and input_to carry-over "
             "arguments, owners destructed while call_outs / sentences / an input_to are pending (dropped by the sweep, "
             "refused by the input), "
-            "destruct + deferred cleanup, errors thrown under live frames, 20 efun/operator groups with results dropped; "
+            "destruct + deferred cleanup, errors thrown under live frames, 20 efun/operator groups with results dropped, "
+            "25 'value builder aborted half-way' groups (callbacks of map/filter/sort/unique/implode raising after k calls, "
+            "aggregates and call_other arguments with a failing element, sprintf/sscanf/regexp/allocate errors, built-in "
+            "sort refusing its input) and restore_variable / restore_object on valid and damaged save texts (every "
+            "truncation and two replacements at every position of four texts, random damage of random small values); "
             "half in unit mode (real C primitives), half in lpc mode (real interpreter); 15% of the cases may build "
             "cyclic containers; a case is non-trivial when it has >= 2 executed operations; distinct = distinct "
             "canonical implementation trace")
@@ -533,6 +599,23 @@ class C06(Prop):
         mk("copy-too-deep-lpc", "lpc", ["newarr 0 2", "newmap 1", "mset 1 0 0", "aset 0 0 1", "efun 1 0 1", "efun 1 1 0",
                                         "aset 0 0 5", "free 0", "free 1"])
         mk("copy-class-lpc", "lpc", ["newcls 0", "newarr 1 2", "aset 0 1 1", "efun 1 0 1", "efun 1 0 1", "free 0", "free 1"])
+        # "builder aborted half-way": every truncation and two replacements at every position of four save texts
+        ops = []
+        for bi, base in enumerate(SAVE_BASES):
+            text = save_text(base)
+            ops.append("rest " + text)
+            ops.append("resto " + text)
+            for i in range(1, len(text)):
+                ops.append("rest " + text[:i])
+                ops.append("rest " + text[:i] + "x" + text[i + 1:])
+                ops.append("rest " + text[:i] + "," + text[i + 1:])
+                if i % 4 == bi:
+                    ops.append("resto " + text[:i] + ":" + text[i + 1:])
+        for part in range(0, len(ops), 60):
+            mk("restore-damaged-%d" % (part // 60), "lpc", ["newarr 0 2", "newmap 1", "mset 1 0 0"] + ops[part:part + 60] + ["free 0", "free 1"])
+        mk("builders-aborted-lpc", "lpc", ["newarr 0 2", "newmap 1", "mset 1 0 0", "newcls 2", "aset 2 0 1"] +
+           ["efun %d %d %d" % (f, f % 3, (f + 1) % 3) for f in range(20, NEFUN)] +
+           ["efun %d %d %d" % (f, (f + 1) % 3, f % 3) for f in range(20, NEFUN)] + ["free 0", "free 1", "free 2"])
         mk("efuns-lpc", "lpc", ["newarr 0 3", "newmap 1", "mset 1 0 0", "aset 0 0 1"] +
            ["efun %d %d %d" % (f, f % 2, (f + 1) % 2) for f in range(NEFUN)] + ["free 0", "free 1"])
         return B
